@@ -1,9 +1,11 @@
 package sim
 
 import (
+	"context"
 	"os"
 	"os/exec"
 	"strings"
+	"time"
 )
 
 // freshExec executes a script in a fresh process (`tabsim replay`) and
@@ -18,7 +20,10 @@ func freshExec(s *Script, tmp string) (sig, detail, logHash string) {
 		return "", "", ""
 	}
 	defer os.Remove(tmp)
-	out, _ := exec.Command(exe, "replay", tmp).CombinedOutput()
+	// (bounded: a candidate that hangs is not the violation being confirmed)
+	ctx, cancel := context.WithTimeout(context.Background(), 2*time.Minute)
+	defer cancel()
+	out, _ := exec.CommandContext(ctx, exe, "replay", tmp).CombinedOutput()
 	for _, line := range strings.Split(string(out), "\n") {
 		if strings.HasPrefix(line, "replay: property=") {
 			if i := strings.Index(line, "log_hash="); i >= 0 {
